@@ -93,6 +93,21 @@ class Mon(drivers.Monitor):
                 ex.violation((rid, "case_rule_changed_line_length"), {})
 
 
+    def on_end(self, ex):
+        """write-back: a run in which only rules of the never-change classes (unfixable, fixable: false, non-error severity)
+        found anything must not rewrite the file (inode and mtime are observed on the scratch file the real apply_rules ran on)"""
+        if ex.violations or not ex.written or ex.rl is None:
+            return
+        had = [r for r in ex.rl.rules if getattr(r, "had_violations", False)]
+
+        def never(r):
+            d = self.spec.get(r.unique_id)
+            return r.disable or not r.fixable or r.severity.type != severity.error_type or (d is not None and d["unfixable"])
+
+        if all(never(r) for r in had):
+            ex.violation(("<write_back>", "file_rewritten_although_only_never_change_rules_had_violations"), {"rules_flagged_had_violations": [r.unique_id for r in had][:8], "effective_rules": ex.effective_rules[:8]})
+
+
 def execute(item):
     mon = Mon()
     ex = common.run_item(item, [mon], PROP)
@@ -106,11 +121,12 @@ def execute(item):
 
 KQ = ("NL", "CE", "J", "PPO")
 KT = KQ + ('W3', 'UP')
+FX = ("W0", "W3")  # operators applied on the rule-focused slice only
 
 
 def items(tier):
     # + for every (quick: every third) rule on its own fixture: fixable:false, severity:Warning, disable:true (the never-change classes)
-    return common.pipe_items(tier, KQ, KT, k1=True) + [it for it in configs_k1.items_for_own_fixtures(limit_values=0, generic=3 if tier == "quick" else 1) if ".fixable=" in it["id"] or ".severity=" in it["id"] or ".disable=true" in it["id"]]
+    return common.pipe_items(tier, KQ, KT, focus_extra=FX, k1=True) + [it for it in configs_k1.items_for_own_fixtures(limit_values=0, generic=3 if tier == "quick" else 1) if ".fixable=" in it["id"] or ".severity=" in it["id"] or ".disable=true" in it["id"]]
 
 
 def reproduce(item):
@@ -128,7 +144,7 @@ def main(tier):
         "rules_documented": len(spec),
         "rules_observed_firing": len(fired),
         "undocumented_rules_fired": sorted(r for r in fired if r not in spec),
-        "bound": common.bound_text(tier, KQ, KT),
+        "bound": common.bound_text(tier, KQ, KT, FX),
     }
     return report.finish(
         PROP,
